@@ -548,6 +548,16 @@ HARMLESS_X86.append(("tuple / chained assignments in process_memory_address, com
         sub('        return_dict = InstructionForm(', '        comment = None\n        if self.comment_id in result:\n            comment = " ".join(result[self.comment_id])\n        return_dict = InstructionForm('),
         sub('comment_id=" ".join(result[self.comment_id]) if self.comment_id in result else None', 'comment_id=comment'))))}))
 
+def from_import(text):
+    """`import pyparsing as pp` + `pp.X`  ->  `from pyparsing import X, ...` + `X`"""
+    names = sorted(set(re.findall(r"\bpp\.([A-Za-z_][A-Za-z0-9_]*)", text)))
+    text = text.replace("import pyparsing as pp\n", "from pyparsing import (\n    %s,\n)\n" % ",\n    ".join(names))
+    return re.sub(r"\bpp\.([A-Za-z_][A-Za-z0-9_]*)", r"\1", text)
+
+
+HARMLESS_A64.append(("`from pyparsing import ...` instead of the module alias", {A64: from_import}))
+HARMLESS_X86.append(("`from pyparsing import ...` instead of the module alias", {X86: from_import}))
+
 REAL_A64 = [
     ("comment symbol // -> ;", {A64: sub('symbol_comment = "//"', 'symbol_comment = ";"')}),
     ("shift op ror dropped", {A64: sub('            ^ pp.CaselessLiteral("ror")\n', '')}),
